@@ -11,9 +11,20 @@
    last wl observations of every variable.  zp = the variables as known at prediction time: zs
    itself, or zs extended by the observations handed to update(.., update_params=False)
    (`extend`).  The regressor (M, fit1, fitm, pred1, predm) is universally quantified: any
-   deterministic functions. *)
+   deterministic functions.
+
+   Second part (Hist.v / HistProofs.v): the forecaster as a STATE with an explicit cutoff.  The
+   remembered variables h_mem (y first) are time-indexed series `tser` = list of (label, value),
+   label-sorted; h_cut is the cutoff, which may lie anywhere inside the remembered data (after
+   update with older data, inside and after update_predict, whose cutoff is detached);
+   get_last_window wl c s = the rows of s whose LABEL lies in [c - wl + 1, c] (`.loc`), tget s t =
+   the value labelled t; h_forecast = _predict(fh) at the current cutoff: the regressor events
+   EvPred c k x (call made while the cutoff was c) and the forecast (labels c + fh, values);
+   fit_part / predict_part = the fit side and the predict side of the four strategies, the latter
+   as a function of the last window; upto c s = what s held up to label c. *)
 From Coq Require Import ZArith List Bool.
-Require Import SkV.Lib.Base SkV.Lib.ZRange SkV.C05.Model SkV.C05.Proofs.
+Require Import SkV.Lib.Base SkV.Lib.ZRange SkV.C05.Model SkV.C05.Proofs SkV.C05.Hist SkV.C05.HistProofs.
+Require SkV.C10.Model.
 Import ListNotations.
 Open Scope Z_scope.
 
@@ -219,3 +230,199 @@ Example C05_nonvacuous :
         [[[11; 12]; [21; 22]]; [[12; 13]; [22; 23]]; [[13; 14]; [23; 24]]]) /\
   enc Tabular (last_obs ex_zs 2) = RTab [16; 17; 26; 27].
 Proof. exact ex_nonvacuous. Qed.
+
+(* ============================================================================================== *)
+(* the cutoff made explicit: "the last window_length observed values" are the observations ENDING
+   AT THE CUTOFF (the time the forecast is labelled from), never an observation after it *)
+
+(* the window fed at cutoff c is y[c - wl + 1 .. c] by time label: exactly wl values, position i
+   holds the observation labelled c - wl + 1 + i, the newest lag is the observation AT the cutoff -
+   wherever c lies inside the remembered series *)
+Theorem C05_last_window_ends_at_cutoff : forall (s : tser) c wl, sorted_lt (ttimes s) -> 1 <= wl ->
+  (forall t, c - wl + 1 <= t <= c -> In t (ttimes s)) ->
+  let w := get_last_window wl c s in
+  w = map (tget s) (zrange (c - wl + 1) (c + 1) 1) /\
+  zlen w = wl /\
+  (forall i, 0 <= i < wl -> znth w i = tget s (c - wl + 1 + i)) /\
+  znth w (wl - 1) = tget s c.
+Proof. exact last_window_ends_at_cutoff. Qed.
+Print Assumptions C05_last_window_ends_at_cutoff.
+
+(* never the future: every row of the window is a remembered observation whose time label is
+   <= the cutoff (and > cutoff - wl); every label of the forecast is > the cutoff *)
+Theorem C05_last_window_no_future : forall (s : tser) c wl fh, wf_fh fh ->
+  get_last_window wl c s = tvals (trows s (c - wl + 1) c) /\
+  (forall p, In p (trows s (c - wl + 1) c) -> In p s /\ c - wl + 1 <= fst p <= c) /\
+  (forall l, In l (map (fun h => c + h) fh) -> c < l).
+Proof. exact last_window_no_future. Qed.
+Print Assumptions C05_last_window_no_future.
+
+(* ... as non-interference: the window at cutoff c is the same for any two series that agree on
+   everything labelled <= c; remembering observations labelled after c changes nothing up to c *)
+Theorem C05_last_window_ignores_future : forall (s1 s2 new : tser) c wl,
+  (upto c s1 = upto c s2 -> get_last_window wl c s1 = get_last_window wl c s2) /\
+  ((forall p, In p new -> c < fst p) -> upto c (tcfirst new s1) = upto c s1).
+Proof.
+  intros s1 s2 new c wl. split; [apply last_window_ignores_future|apply upto_tcfirst_later].
+Qed.
+Print Assumptions C05_last_window_ignores_future.
+
+(* the list model of the first part is the special case "cutoff = label of the last remembered
+   observation": there the label-based window is the positional tail, and `reduce` is the fit part
+   followed by the predict part on that tail *)
+Theorem C05_cutoff_at_end_is_positional_tail : forall t0 vs wl, 1 <= wl <= zlen vs ->
+  get_last_window wl (t0 + zlen vs - 1) (tblock t0 vs) = last_window (zlen vs) wl vs.
+Proof. exact last_window_at_end. Qed.
+Print Assumptions C05_cutoff_at_end_is_positional_tail.
+
+Theorem C05_list_model_is_fit_then_predict : forall (M : Type) (fit1 : list xrow -> list Z -> M)
+  (fitm : list xrow -> list (list Z) -> M) (pred1 : M -> xrow -> Z) (predm : M -> xrow -> list Z)
+  st sc y xs wl fh xfut news,
+  reduce M fit1 fitm pred1 predm st sc y xs wl fh xfut news =
+    let zs := y :: xs in
+    let zp := extend zs news in
+    let n := zlen (hd [] zp) in
+    match fit_part M fit1 fitm st sc zs wl fh with
+    | Err => Err
+    | Ok (fc, ms) =>
+        let '(pc, v) := predict_part M pred1 predm st sc wl fh ms (map (last_window n wl) zp) xfut in
+        Ok (mkRun fc pc v)
+    end.
+Proof. exact reduce_is_fit_then_predict. Qed.
+Print Assumptions C05_list_model_is_fit_then_predict.
+
+(* the forecast made in ANY state whose remembered variables hold the labels c - wl + 1 .. c
+   (c = the state's cutoff, anywhere inside the remembered data): the regressors are asked on the
+   window BY LABEL ending at c, every call is made at cutoff c, the forecast is labelled c + fh and
+   its values are the predict part's outputs on that window *)
+Theorem C05_forecast_at_cutoff : forall (M : Type) (pred1 : M -> xrow -> Z) (predm : M -> xrow -> list Z)
+  st sc wl (s : hstate M) fh xfut, 1 <= wl -> window_remembered M wl s ->
+  let c := h_cut M s in
+  let win := window_by_label wl c (h_mem M s) in
+  h_forecast M pred1 predm st sc wl s fh xfut =
+    (map (fun p => EvPred c (h_base M s + fst p) (snd p))
+         (fst (predict_part M pred1 predm st sc wl fh (h_ms M s) win xfut)),
+     (map (fun h => c + h) fh, Some (snd (predict_part M pred1 predm st sc wl fh (h_ms M s) win xfut)))).
+Proof. exact forecast_at_cutoff. Qed.
+Print Assumptions C05_forecast_at_cutoff.
+
+(* never the future, for the whole forecast: regressor calls and values made at cutoff c are the
+   same in two states that agree on everything observed up to c (same regressors) *)
+Theorem C05_forecast_ignores_future : forall (M : Type) (pred1 : M -> xrow -> Z)
+  (predm : M -> xrow -> list Z) st sc wl (s1 s2 : hstate M) fh xfut,
+  h_cut M s1 = h_cut M s2 -> h_ms M s1 = h_ms M s2 -> h_base M s1 = h_base M s2 ->
+  agree_upto (h_cut M s1) (h_mem M s1) (h_mem M s2) ->
+  h_forecast M pred1 predm st sc wl s1 fh xfut = h_forecast M pred1 predm st sc wl s2 fh xfut.
+Proof. exact forecast_ignores_future. Qed.
+Print Assumptions C05_forecast_ignores_future.
+
+(* direct / multioutput from an arbitrary window: every regressor is given the window itself *)
+Theorem C05_direct_multioutput_from_window : forall (M : Type) (pred1 : M -> xrow -> Z)
+  (predm : M -> xrow -> list Z) sc wl fh m ms win xfut,
+  predict_part M pred1 predm Direct sc wl fh ms win xfut =
+    (map (fun i => (i, enc sc win)) (zrange 0 (zlen fh) 1), map (fun m => pred1 m (enc sc win)) ms) /\
+  predict_part M pred1 predm Multioutput sc wl fh (m :: ms) win xfut =
+    ([(0, enc sc win)], predm m (enc sc win)).
+Proof. intros. split; reflexivity. Qed.
+Print Assumptions C05_direct_multioutput_from_window.
+
+(* recursive from an arbitrary window: call i + 1 is given positions i .. i + wl - 1 of the window
+   extended by the earlier predictions (exogenous columns: by the rows of the X passed to
+   predict); the forecast for step h is the output of call h *)
+Theorem C05_recursive_feedback_from_window : forall (M : Type) (pred1 : M -> xrow -> Z)
+  (predm : M -> xrow -> list Z) sc wl fh m ms win xfut, wf_fh fh -> zlen (hd [] win) = wl ->
+  exists steps,
+    predict_part M pred1 predm Recursive sc wl fh (m :: ms) win xfut =
+      (map (fun s => (0, fst s)) steps, map (fun h => snd (nth (Z.to_nat (h - 1)) steps dflt)) fh) /\
+    zlen steps = zlast fh /\
+    forall i, 0 <= i < zlast fh ->
+      nth (Z.to_nat i) steps dflt =
+        let ext := (hd [] win ++ map snd steps) :: map (fun p => fst p ++ snd p) (combine (tl win) xfut) in
+        let x := enc sc (map (fun s => zslice s i (wl + i)) ext) in
+        (x, pred1 m x).
+Proof. exact recursive_predict_from_window. Qed.
+Print Assumptions C05_recursive_feedback_from_window.
+
+(* dirrec from an arbitrary window: regressor i is given the window followed by the outputs of
+   regressors 0 .. i-1, its output is forecast i *)
+Theorem C05_dirrec_feedback_from_window : forall (M : Type) (pred1 : M -> xrow -> Z)
+  (predm : M -> xrow -> list Z) sc wl fh ms win xfut, zlen ms = zlen fh -> zlen (hd [] win) = wl ->
+  exists steps,
+    predict_part M pred1 predm DirRec sc wl fh ms win xfut =
+      (combine (zrange 0 (zlen fh) 1) (map fst steps), map snd steps) /\
+    zlen steps = zlen fh /\
+    forall i m0, 0 <= i < zlen fh ->
+      nth (Z.to_nat i) steps dflt =
+        let x := enc sc [hd [] win ++ firstn (Z.to_nat i) (map snd steps)] in
+        (x, pred1 (nth (Z.to_nat i) ms m0) x).
+Proof. exact dirrec_predict_from_window. Qed.
+Print Assumptions C05_dirrec_feedback_from_window.
+
+(* update_predict runs with a DETACHED cutoff: afterwards the cutoff is what it was before, whatever
+   data, splitter and update_params *)
+Theorem C05_update_predict_restores_cutoff : forall (M : Type) (fit1 : list xrow -> list Z -> M)
+  (fitm : list xrow -> list (list Z) -> M) (pred1 : M -> xrow -> Z) (predm : M -> xrow -> list Z)
+  st sc wl (s : hstate M) y cv up,
+  h_cut M (fst (fst (h_updpred M fit1 fitm pred1 predm st sc wl s y cv up))) = h_cut M s.
+Proof. exact update_predict_restores_cutoff. Qed.
+Print Assumptions C05_update_predict_restores_cutoff.
+
+(* one moving cutoff (no refit): the window's observations are merged by label, the cutoff is the
+   last label of the window, and the forecast is the ordinary forecast of that state (labels
+   cutoff + fh) - so C05_forecast_at_cutoff / C05_forecast_ignores_future hold at every moving
+   cutoff, also on a second pass over data that are already remembered *)
+Theorem C05_moving_cutoff_step : forall (M : Type) (fit1 : list xrow -> list Z -> M)
+  (fitm : list xrow -> list (list Z) -> M) (pred1 : M -> xrow -> Z) (predm : M -> xrow -> list Z)
+  st sc wl fh (s : hstate M) evs out yw,
+  let s1 := mem_update M s yw None in
+  mc_step M fit1 fitm pred1 predm st sc wl fh false (s, evs, out, true) yw =
+    (s1, evs ++ fst (h_forecast M pred1 predm st sc wl s1 fh []),
+     out ++ [snd (h_forecast M pred1 predm st sc wl s1 fh [])], true) /\
+  fst (snd (h_forecast M pred1 predm st sc wl s1 fh [])) = map (fun h => h_cut M s1 + h) fh /\
+  (yw <> [] -> h_cut M s1 = tlast yw).
+Proof. exact moving_cutoff_step. Qed.
+Print Assumptions C05_moving_cutoff_step.
+
+(* predict after update_predict(update_params=False) over data observed after the cutoff: the data
+   stay remembered, the cutoff is back, and the forecast - regressor calls and values - is exactly
+   the one that would have been made before: nothing observed after the cutoff reaches a regressor *)
+Theorem C05_predict_after_update_predict : forall (M : Type) (fit1 : list xrow -> list Z -> M)
+  (fitm : list xrow -> list (list Z) -> M) (pred1 : M -> xrow -> Z) (predm : M -> xrow -> list Z)
+  st sc wl (s : hstate M) (y : tser) cv fh xfut,
+  h_mem M s <> [] -> (forall p, In p y -> h_cut M s < fst p) ->
+  let s' := fst (fst (h_updpred M fit1 fitm pred1 predm st sc wl s y cv false)) in
+  h_cut M s' = h_cut M s /\
+  h_forecast M pred1 predm st sc wl s' fh xfut = h_forecast M pred1 predm st sc wl s fh xfut.
+Proof. exact predict_after_update_predict. Qed.
+Print Assumptions C05_predict_after_update_predict.
+
+(* the remembered variables stay label-sorted through every call history (whatever the order of the
+   labels handed in), so the label-based window is well defined in every reachable state *)
+Theorem C05_memory_stays_label_sorted : forall (M : Type) (fit1 : list xrow -> list Z -> M)
+  (fitm : list xrow -> list (list Z) -> M) (pred1 : M -> xrow -> Z) (predm : M -> xrow -> list Z)
+  st sc wl t0 zs fh (s : hstate M) ev ops,
+  h_fit M fit1 fitm st sc wl t0 zs fh = Ok (s, ev) ->
+  mem_sorted M (h_after M fit1 fitm pred1 predm st sc wl s ops).
+Proof. exact history_keeps_memory_sorted. Qed.
+Print Assumptions C05_memory_stays_label_sorted.
+
+(* non-vacuity of the second part: a reachable state whose cutoff (6) is NOT the last remembered
+   label (9) - after update_predict - satisfying window_remembered; predict is fed the window
+   ending at label 6, [16; 17], not the remembered tail [20; 21] *)
+Example C05_history_nonvacuous :
+  h_cut Z ex_state = 6 /\ tlast (hd [] (h_mem Z ex_state)) = 9 /\
+  window_remembered Z 2 ex_state /\ mem_sorted Z ex_state /\
+  window_by_label 2 6 (h_mem Z ex_state) = [[16; 17]] /\
+  h_forecast Z ex_pred1 ex_predm Direct Tabular 2 ex_state [1] [] =
+    ([EvPred 6 0 (RTab [16; 17])], ([7], Some [22])) /\
+  hist Z ex_fit1 ex_fitm ex_pred1 ex_predm Direct Tabular 2 0 [11; 12; 13; 14; 15; 16; 17] [] (Some [1])
+       [HUpdPred (tblock 7 [18; 19; 20; 21]) (Some ex_cv) false; HPredict None []] =
+    Ok [([EvFit (Fit1 [RTab [11; 12]; RTab [12; 13]; RTab [13; 14]; RTab [14; 15]; RTab [15; 16]]
+                      [13; 14; 15; 16; 17])],
+         RNone, 6, tblock 0 [11; 12; 13; 14; 15; 16; 17]);
+        ([EvPred 8 0 (RTab [18; 19]); EvPred 9 0 (RTab [19; 20])],
+         RMoving [([9], Some [24]); ([10], Some [25])], 6,
+         tblock 0 [11; 12; 13; 14; 15; 16; 17; 18; 19; 20]);
+        ([EvPred 6 0 (RTab [16; 17])], RPred ([7], Some [22]), 6,
+         tblock 0 [11; 12; 13; 14; 15; 16; 17; 18; 19; 20])].
+Proof. exact ex_history. Qed.
